@@ -60,6 +60,16 @@ func genCtxKind(t *rapid.T) string {
 }
 
 // genDecoy: one case in eight names a second, always failing client type.
+// genImplShape draws the Go shape of the registered transport double
+// (shape.go): the pointer shape in one case out of three, otherwise one of the
+// value / func / map shapes.
+func genImplShape(t *rapid.T) string {
+	if rapid.IntRange(0, 2).Draw(t, "impl-shape-pointer") == 0 {
+		return ""
+	}
+	return rapid.SampledFrom(implShapes[1:]).Draw(t, "impl-shape")
+}
+
 func genDecoy(t *rapid.T) (string, bool) {
 	if rapid.IntRange(0, 7).Draw(t, "decoy") != 7 {
 		return "", false
@@ -134,6 +144,7 @@ func genScenario(t *rapid.T, favourDefault bool) *Scenario {
 	if sc.Stop == "cancel" && sc.Ctx == "" && rapid.Bool().Draw(t, "ctx-deadline") {
 		sc.Ctx = rapid.SampledFrom([]string{"deadline", "deadline", "parent-deadline", "value-deadline"}).Draw(t, "ctx-ends-by")
 	}
+	sc.Shape = genImplShape(t)
 
 	if sc.Plain {
 		a := genAttempt(t)
@@ -311,6 +322,7 @@ func genLife(t *rapid.T, profile string) *LScenario {
 		sc.NilCallbacks, sc.Callbacks = nc, cb
 	}
 	sc.Decoy, sc.DecoyFirst = genDecoy(t)
+	sc.Shape = genImplShape(t)
 	minAttempts := 0
 	if entry {
 		minAttempts = rapid.SampledFrom([]int{0, 1, 2, 2, 3}).Draw(t, "min-attempts")
@@ -530,9 +542,19 @@ func genReal(t *rapid.T) *RScenario {
 	sc := &RScenario{}
 	sc.Client = rapid.SampledFrom([]string{"base", "base", "cache"}).Draw(t, "client")
 	sc.Plain = rapid.IntRange(0, 3).Draw(t, "plain") == 3
+	// Profile "close-streaming" (one case in six; never together with profile
+	// "ctx-end" below): Close while the server holds the established stream open
+	// (quiet or mid-burst) - of a plain BaseClient / CacheClient in two of three
+	// such cases, where nothing but that Close can end the Subscribe call.
+	closeStreaming := rapid.IntRange(0, 5).Draw(t, "profile-close-streaming") == 0
+	if closeStreaming && rapid.IntRange(0, 2).Draw(t, "profile-plain") != 0 {
+		sc.Plain = true
+	}
 	if nc, cb := genCallbacks(t); !sc.Plain {
 		sc.NilCallbacks, sc.Callbacks = nc, cb
 	}
+	// which exported constructor of client/gnmi makes the transports (realctor.go)
+	sc.Ctor = rapid.SampledFrom(realCtors).Draw(t, "ctor")
 	sc.TLS = rapid.IntRange(0, 4).Draw(t, "tls") == 4
 	sc.NoEndWait = rapid.IntRange(0, 3).Draw(t, "no-end-wait") == 3
 	// Profile "ctx-end" (one case in three) aims at subscriptions that are ended
@@ -540,9 +562,9 @@ func genReal(t *rapid.T) *RScenario {
 	// connections all deliver data and then stay (quiet or with a burst), the
 	// first step is a Subscribe with a valid query and the second the end of its
 	// context (cancel function after the sync / at once, or its own deadline).
-	ctxEnd := rapid.IntRange(0, 2).Draw(t, "profile-ctx-end") == 0
+	ctxEnd := rapid.IntRange(0, 2).Draw(t, "profile-ctx-end") == 0 && !closeStreaming
 	sc.Conns = rapid.SliceOfN(rapid.Custom(genRConn), 0, 4).Draw(t, "conns")
-	if ctxEnd {
+	if ctxEnd || closeStreaming {
 		for i := range sc.Conns {
 			c := &sc.Conns[i]
 			if c.Mode != "data" || c.End != "block" {
@@ -582,9 +604,43 @@ func genReal(t *rapid.T) *RScenario {
 			}
 		}
 	}
+	if closeStreaming {
+		first := &sc.Steps[0]
+		if first.Kind != "subscribe" {
+			*first = RStep{Kind: "subscribe"}
+		}
+		first.Query, first.Cancelled = "", false
+		if rapid.IntRange(0, 3).Draw(t, "profile-keeps-trap") != 0 || first.TrapAct != "linger" {
+			first.Trap, first.TrapAct, first.TrapAttempt, first.TrapLinger = "", "", 0, false
+		}
+		second := RStep{Kind: "close", After: rapid.SampledFrom([]string{"sync", "sync", "sync", "sync", "begin", ""}).Draw(t, "profile-close-after"), Burst: rapid.IntRange(0, 2).Draw(t, "profile-open-burst") == 0}
+		if len(sc.Steps) < 2 {
+			sc.Steps = append(sc.Steps, second)
+		} else {
+			sc.Steps[1] = second
+		}
+		if second.Burst {
+			if len(sc.Conns) == 0 {
+				sc.Conns = []RConn{{Mode: "data", N: 1, Sync: true, End: "block"}}
+			}
+			if sc.Conns[0].Burst == 0 {
+				sc.Conns[0].Burst = rapid.SampledFrom([]int{4, 16, 64}).Draw(t, "profile-first-burst")
+			}
+		}
+	}
 	for i := range sc.Steps {
 		if s := &sc.Steps[i]; s.Kind == "subscribe" {
 			genRShape(t, s, sc.Plain)
+		}
+	}
+	if closeStreaming {
+		// mostly a Stream subscription under a context that does not end by itself
+		first := &sc.Steps[0]
+		if ctxSelfEnding(first.Ctx) {
+			first.Ctx, first.Deadline = rapid.SampledFrom([]string{"", "value", "parent-cancel", "far-deadline"}).Draw(t, "profile-ctx"), 0
+		}
+		if first.Type != "" && rapid.IntRange(0, 2).Draw(t, "profile-stream") != 0 {
+			first.Type = ""
 		}
 	}
 	if ctxEnd {
